@@ -313,7 +313,41 @@ impl FromStr for Grouper {
 }
 
 
-// FunctionDefinitions::create (arity check): out of Verus' reach — the struct holds a function pointer (`Factory`), which Verus rejects.
+// ---- FunctionDefinitions::create: the arity check (C18). The function pointer field is the opaque stand-in `Factory`.
+pub mod fdef {
+use super::*;
+use std::result::Result;
+#[verifier::external_body] pub struct Factory { _p: () }
+impl Factory {
+    pub uninterp spec fn built(&self, args: Seq<Rc<dyn Get>>) -> Rc<dyn Get>;
+    #[verifier::external_body]
+    pub fn call(&self, args: Vec<Rc<dyn Get>>) -> (r: Rc<dyn Get>) ensures r == self.built(args@) { unimplemented!() }
+}
+#[verifier::external_body] pub struct Example { _p: () }
+#[verifier::external_body] pub struct FunctionDefinitionsError { _p: () }
+impl FunctionDefinitionsError {
+    #[allow(non_snake_case)] #[verifier::external_body] pub fn MissingArgument(name: String, a: usize, b: usize) -> Self { unimplemented!() }
+    #[allow(non_snake_case)] #[verifier::external_body] pub fn TooManyArgument(name: String, a: usize, b: usize) -> Self { unimplemented!() }
+}
+//@@ item src/functions_definitions.rs :: struct FunctionDefinitions
+//@@ rewrite pub_fields
+//@@ enditem
+impl FunctionDefinitions {
+    // only feeds the error message
+    #[verifier::external_body]
+    pub fn name(&self) -> String { unimplemented!() }
+//@@ fn fdef.create = src/functions_definitions.rs :: impl FunctionDefinitions :: fn create
+//@@ safety C18 C05
+//@@ rewrite factory_call
+//@@ ret r
+//@@ header
+        ensures
+            // fewer than the minimal or more than the maximal number of arguments is an error: the function is never built
+            r is Ok <==> self.min_args_count <= args@.len() <= self.max_args_count, // @obl EXPR.arity : C18
+            r is Ok ==> r->Ok_0 == self.build_extractor.built(args@), // @obl EXPR.arity.built : C18 C13
+//@@ endfn
+}
+}
 
 } // verus!
 fn main() {}
